@@ -597,3 +597,190 @@ Section Roundtrip.
     intros Ty D. unfold client_decode. rewrite (distinguishable_rejects resp err e D Ty). reflexivity.
   Qed.
 End Roundtrip.
+
+(* ------------------------------------------------------------------------------------------ *)
+(* whatever parses is a well-typed message (so parse ; serialise ; parse is stable)           *)
+(* ------------------------------------------------------------------------------------------ *)
+Lemma assoc_str_In {A} k (l : list (str * A)) v : assoc_str k l = Some v -> In (k, v) l.
+Proof.
+  induction l as [|[k' v'] l IH]; simpl; [discriminate|].
+  destruct (str_eqb k k') eqn:E.
+  - intros H. inversion H; subst. apply str_eqb_eq in E. subst. left. reflexivity.
+  - intros H. right. apply IH. exact H.
+Qed.
+
+(* every name FromStr accepts is the Display of the variant it yields *)
+Definition status_table_okb (T : status_table) : bool :=
+  forallb (fun sv => match assoc_str (snd sv) (st_variants T) with
+                     | Some d => match status_parse T (status_emit T d) with Some d' => Z.eqb d d' | None => false end
+                     | None => true
+                     end) (st_from_str T).
+
+Section Typed.
+  Context (T : status_table).
+  Context (HT : status_table_okb T = true).
+
+  Lemma dec_hex_list_wf l bs : dec_hex_list l = Some bs -> forallb wf_bytesb bs = true.
+  Proof.
+    revert bs. induction l as [|j l IH]; simpl; intros bs H.
+    - inversion H. reflexivity.
+    - destruct j; try discriminate.
+      destruct (hex_decode s) as [b|] eqn:Eb; [|discriminate].
+      destruct (dec_hex_list l) as [t|]; [|discriminate].
+      inversion H; subst. simpl. rewrite (proj1 (hex_decode_wf s b Eb)), (IH t eq_refl). reflexivity.
+  Qed.
+
+  Lemma dec_u8_list_wf l b : dec_u8_list l = Some b -> wf_bytesb b = true.
+  Proof.
+    revert b. induction l as [|j l IH]; simpl; intros b H.
+    - inversion H. reflexivity.
+    - destruct j; try discriminate.
+      destruct (dec_u8_list l) as [t|]; [|discriminate].
+      destruct (U8b z) eqn:U; [|discriminate]. inversion H; subst.
+      apply wf_bytesb_cons. split; [|apply IH; reflexivity].
+      unfold U8b in U. apply andb_true_iff in U. destruct U as [U1 U2]. apply Z.leb_le in U1. apply Z.ltb_lt in U2. lia.
+  Qed.
+
+  Lemma status_parse_typed s n : status_parse T s = Some n ->
+    match status_parse T (status_emit T n) with Some n' => Z.eqb n n' | None => false end = true.
+  Proof.
+    unfold status_parse at 1. destruct (assoc_str s (st_from_str T)) as [v|] eqn:E; [|discriminate].
+    intros Hv. apply assoc_str_In in E. unfold status_table_okb in HT. rewrite forallb_forall in HT.
+    specialize (HT (s, v) E). simpl in HT. rewrite Hv in HT. exact HT.
+  Qed.
+
+  Definition QK (k : kind) : Prop := forall j v, dec_kind T k j = Some v -> typed_kindb T k v = true.
+  Definition QM (m : msg) : Prop := forall j mv, dec_msg T m j = Some mv -> typed_msgb T m mv = true.
+  Definition QF (fs : fields) : Prop :=
+    (forall o vs, dec_fields T fs o = Some vs -> typed_fieldsb T fs vs = true) /\
+    (forall l vs, dec_fields_seq T fs l = Some vs -> typed_fieldsb T fs vs = true).
+  Definition QMs (ms : msgs) : Prop :=
+    forall j i0, match dec_first T ms j i0 with
+                 | MVOneofNone => True
+                 | MVOneof i mv => exists n, i = (i0 + n)%nat /\ typed_variantb T ms n mv = true
+                 | MVStruct _ => False
+                 end.
+
+  Lemma dec_typed_all : (forall k, QK k) /\ (forall m, QM m) /\ (forall fs, QF fs) /\ (forall ms, QMs ms).
+  Proof.
+    apply spec_mutind; unfold QK, QM, QF, QMs.
+    - intros j v H. simpl in H. destruct j; try discriminate. destruct (hex_decode s) as [b|] eqn:E; [|discriminate].
+      inversion H; subst. simpl. apply (hex_decode_wf s b E).
+    - intros j v H. simpl in H. destruct j; try discriminate. unfold behex_decode in H.
+      destruct (hex_decode s) as [b|] eqn:E; [|discriminate]. inversion H; subst. simpl.
+      rewrite wf_bytesb_rev. apply (hex_decode_wf s b E).
+    - intros j v H. simpl in H. destruct j; try discriminate. destruct (dec_hex_list l) as [bs|] eqn:E; [|discriminate].
+      inversion H; subst. simpl. apply (dec_hex_list_wf l bs E).
+    - intros j v H. simpl in H. destruct j; try discriminate. destruct (status_parse T s) as [n|] eqn:E; [|discriminate].
+      inversion H; subst. simpl. apply (status_parse_typed s n E).
+    - intros j v H. simpl in H. destruct j; try discriminate. destruct (U32b z) eqn:E; [|discriminate].
+      inversion H; subst. exact E.
+    - intros j v H. simpl in H. destruct j; try discriminate. destruct (U8b z) eqn:E; [|discriminate].
+      inversion H; subst. exact E.
+    - intros j v H. simpl in H. destruct j; try discriminate. inversion H; subst. reflexivity.
+    - intros j v H. simpl in H. destruct j; try discriminate. destruct (dec_u8_list l) as [b|] eqn:E; [|discriminate].
+      inversion H; subst. simpl. apply (dec_u8_list_wf l b E).
+    - intros m IH j v H. simpl in H.
+      destruct j; try (inversion H; subst; reflexivity);
+        match type of H with context [dec_msg T m ?J] => destruct (dec_msg T m J) as [mv|] eqn:E; [|discriminate] end;
+        inversion H; subst; simpl; apply (IH _ _ E).
+    - intros fs [IH1 IH2] j mv H. simpl in H. destruct j; try discriminate.
+      + destruct (dec_fields_seq T fs l) as [vs|] eqn:E; [|discriminate]. inversion H; subst. simpl. apply (IH2 _ _ E).
+      + destruct (dec_fields T fs l) as [vs|] eqn:E; [|discriminate]. inversion H; subst. simpl. apply (IH1 _ _ E).
+    - intros ms IH j mv H. simpl in H. destruct j; try discriminate. inversion H; subst.
+      specialize (IH (JObj l) 0%nat). destruct (dec_first T ms (JObj l) 0); simpl; [contradiction | reflexivity |].
+      destruct IH as [n [E Ty]]. simpl in E. subst. exact Ty.
+    - split; [intros o vs H | intros l vs H]; simpl in H.
+      + inversion H. reflexivity.
+      + destruct l; [inversion H; reflexivity | discriminate].
+    - intros name k IHk r [IHr1 IHr2]. split.
+      + intros o vs H. simpl in H.
+        match type of H with match ?X with _ => _ end = _ => destruct X as [v|] eqn:Ev; [|discriminate] end.
+        destruct (dec_fields T r o) as [vr|] eqn:Er; [|discriminate]. inversion H; subst. simpl.
+        rewrite (IHr1 _ _ Er), andb_true_r.
+        destruct (find_all name o) as [|j [|j2 rest]]; try discriminate.
+        * destruct (is_optional k) eqn:Eo; [|discriminate]. inversion Ev; subst.
+          destruct k; try discriminate. reflexivity.
+        * apply (IHk _ _ Ev).
+      + intros l vs H. simpl in H. destruct l as [|j l']; [discriminate|].
+        destruct (dec_kind T k j) as [v|] eqn:Ev; [|discriminate].
+        destruct (dec_fields_seq T r l') as [vr|] eqn:Er; [|discriminate]. inversion H; subst. simpl.
+        rewrite (IHk _ _ Ev), (IHr2 _ _ Er). reflexivity.
+    - intros j i0. simpl. exact I.
+    - intros m IHm r IHr j i0. simpl. destruct (dec_msg T m j) as [mv|] eqn:E.
+      + exists 0%nat. split; [lia | simpl; apply (IHm _ _ E)].
+      + specialize (IHr j (S i0)). destruct (dec_first T r j (S i0)); auto.
+        destruct IHr as [n [E1 Ty]]. exists (S n). split; [lia | exact Ty].
+  Qed.
+
+  Theorem dec_msg_typed m j mv : dec_msg T m j = Some mv -> typed_msgb T m mv = true.
+  Proof. destruct dec_typed_all as [_ [H _]]. apply H. Qed.
+
+  (* parse ; serialise ; parse = parse *)
+  Theorem reser_stable m j mv :
+    wf_msgb m = true -> dec_msg T m j = Some mv -> dec_msg T m (enc_msg T m mv) = Some mv.
+  Proof. intros W H. apply msg_roundtrip; [exact W | apply (dec_msg_typed m j mv H)]. Qed.
+End Typed.
+
+(* ------------------------------------------------------------------------------------------ *)
+(* sizes of printed JSON                                                                      *)
+(* ------------------------------------------------------------------------------------------ *)
+Lemma dec_aux_length_ge fuel n acc : (length acc <= length (dec_aux fuel n acc))%nat.
+Proof.
+  revert n acc. induction fuel as [|f IH]; intros n acc; simpl; [lia|].
+  destruct (n / 10 =? 0); simpl; [lia|]. specialize (IH (n / 10) ((48 + n mod 10) :: acc)). simpl in IH. lia.
+Qed.
+
+Lemma dec_aux_length_le fuel : forall k n acc, (1 <= k)%nat -> n < 10 ^ N.of_nat k ->
+  (length (dec_aux fuel n acc) <= length acc + k)%nat.
+Proof.
+  induction fuel as [|f IH]; intros k n acc Hk Hn; simpl; [lia|].
+  destruct (n / 10 =? 0) eqn:E; simpl; [lia|].
+  apply N.eqb_neq in E.
+  assert (10 <= n) as Hn10. { destruct (N.le_gt_cases 10 n); auto. exfalso. apply E. apply N.div_small. assumption. }
+  destruct k as [|[|k']]; [lia | simpl in Hn; lia |].
+  specialize (IH (S k') (n / 10) ((48 + n mod 10) :: acc)). simpl length in IH.
+  assert (n / 10 < 10 ^ N.of_nat (S k')) as Hd.
+  { apply N.div_lt_upper_bound; [lia|].
+    replace (N.of_nat (S (S k'))) with (N.succ (N.of_nat (S k'))) in Hn by lia.
+    rewrite N.pow_succ_r' in Hn. exact Hn. }
+  specialize (IH ltac:(lia) Hd). lia.
+Qed.
+
+Lemma dec_of_Z_length_u32 z : U32b z = true -> (1 <= length (dec_of_Z z) <= 10)%nat.
+Proof.
+  intros U. unfold U32b in U. apply andb_true_iff in U. destruct U as [U1 U2].
+  apply Z.leb_le in U1. apply Z.ltb_lt in U2.
+  assert (dec_of_Z z = dec_of_N (Z.to_N z)) as E by (destruct z; try reflexivity; lia).
+  rewrite E. unfold dec_of_N. split.
+  - simpl. destruct (Z.to_N z / 10 =? 0); simpl; [lia|].
+    pose proof (dec_aux_length_ge (N.size_nat (Z.to_N z)) (Z.to_N z / 10) [48 + Z.to_N z mod 10]). simpl in H. lia.
+  - pose proof (dec_aux_length_le (S (N.size_nat (Z.to_N z))) 10 (Z.to_N z) [] ltac:(lia)) as H. simpl length in H.
+    apply H. change (10 ^ N.of_nat 10) with 10000000000. lia.
+Qed.
+
+Definition plain_charb (c : N) : bool := (32 <=? c) && negb (c =? 34) && negb (c =? 92).
+
+Lemma esc_plain s : forallb plain_charb s = true -> flat_map esc_byte s = s.
+Proof.
+  induction s as [|c s IH]; simpl; intros H; [reflexivity|].
+  apply andb_true_iff in H. destruct H as [Hc Hs]. rewrite (IH Hs).
+  unfold plain_charb in Hc. apply andb_true_iff in Hc. destruct Hc as [Hc H92].
+  apply andb_true_iff in Hc. destruct Hc as [H32 H34].
+  apply N.leb_le in H32. apply negb_true_iff in H34, H92. apply N.eqb_neq in H34, H92.
+  unfold esc_byte.
+  repeat match goal with |- context [?a =? ?b] => let E := fresh in destruct (N.eqb_spec a b) as [E|E]; [exfalso; lia|] end.
+  destruct (N.ltb_spec c 32); [lia|]. reflexivity.
+Qed.
+
+Lemma json_str_length s : length (json_str s) = (2 + length (flat_map esc_byte s))%nat.
+Proof. unfold json_str. simpl. rewrite app_length. simpl. lia. Qed.
+
+(* escaping never shortens a string *)
+Lemma esc_length_ge s : (length s <= length (flat_map esc_byte s))%nat.
+Proof.
+  induction s as [|c s IH]; simpl; [lia|]. rewrite app_length.
+  assert (1 <= length (esc_byte c))%nat.
+  { unfold esc_byte. repeat match goal with |- context [if ?b then _ else _] => destruct b end; simpl; lia. }
+  lia.
+Qed.
